@@ -4,7 +4,7 @@ one() {
   s=$1
   /verif/tools/wt.sh $s >/dev/null 2>&1
   fired=""
-  for p in C01 C02 C03 C04 C05 C06 C07 C08 C09 C10 C11 C12 C13 C14 C15 C16 C17 C18 C19 C20; do
+  for p in ${PROPS:-C01 C02 C03 C04 C05 C06 C07 C08 C09 C10 C11 C12 C13 C14 C15 C16 C17 C18 C19 C20}; do
     out=$(cd /verif && MTSA_REPO=/tmp/bw/$s MTSA_EVIDENCE_DIR=/tmp/bw/ev-$s timeout 1200 ./check $p 2>&1); rc=$?
     echo "$out" > /tmp/bw/out-$s-$p.txt
     [ $rc -ne 0 ] && fired="$fired $p"
